@@ -4,7 +4,6 @@
  * eckey_pubkey_serialize33, fe_normalize_var, fe_get_b32, memcmp_var - is the real code. */
 #define BP_PUBKEY_PARSE
 #include "assumed_bppp.h"
-#include "small_tables.h"
 #include "src/secp256k1.c"
 #include "post.h"
 
